@@ -891,13 +891,23 @@ def gen_migrate_table():
     write_if_changed(os.path.join(C.LEAN, "SuplaVerif", "Gen", "MigrateTable.lean"), "\n".join(out))
 
 
-def main_quiet():
+# the generators of per-property tables: a shape the translator does not recognise there breaks the tie of those properties
+# only (the stale generated file stays in place so that the other properties' models and the model driver still build)
+SCOPED = [("gen_getdata", {"C03"}), ("gen_html", {"C15"}), ("gen_form_table", {"C14"}), ("gen_migrate_table", {"C13"})]
+
+
+def main_quiet(pid=None):
     emit_consts()
-    gen_getdata()
-    gen_html()
-    gen_form_table()
-    gen_migrate_table()
+    pending = None
+    for name, scope in SCOPED:
+        try:
+            globals()[name]()
+        except ExtractError as e:
+            if pid is None or pid in scope:
+                pending = pending or e
     emit_root()
+    if pending is not None:
+        raise pending
 
 
 def main():
